@@ -73,8 +73,18 @@ def single_cases(draw):
     return case
 
 
+@st.composite
+def large_single_cases(draw):
+    case = draw(cases.large_heuristic_cases(["list", "array", "array", "dict-str", "dict-int", "names", "names-array"]))
+    case["outputtype"] = draw(st.sampled_from(["Partition", "Partition", "PartitionAndSumsTuple", "Sums", "BinCount"]))
+    case["large"] = True
+    return case
+
+
 def valid_single(case):
     alg = case.get("alg")
+    if case.get("large"):
+        return cases.valid_large_case(case)
     if case.get("invalid"):
         return alg in sut.ALL_ALGS and isinstance(case.get("values"), list) and len(case["values"]) >= 1
     if alg in sut.PARTITIONERS:
@@ -439,6 +449,9 @@ def legs(tier):
             "call repeated on the same object and on a freshly built equal object must give the identical result (bin order and in-bin "
             "order included); non-trivial = >= 2 items and (non-list argument, or a refused call, or repeated values)",
             strategy=single_cases(), n_quick=4000, n_thorough=80000, valid=valid, shrink=shrink, floor=0.3),
+        Leg("arguments-and-repeat-large", evaluate, "hypothesis: the eleven cheap heuristics on 40-303 items (partitioners with 2-40 bins), "
+            "seven presentations; same snapshots and repetitions; same rule", strategy=large_single_cases(), n_quick=600, n_thorough=12000,
+            valid=valid, floor=0.3),
         Leg("history", evaluate,
             "hypothesis, histories generated as data: 3-9 calls of any of the 19 algorithms over a pool of 1-3 input OBJECTS that are "
             "shared between the calls of the history, incl. repeated calls and refused calls (oversize item, cbldm with 3 bins). The "
